@@ -221,6 +221,7 @@ type Engine struct {
 	KnownOpen map[string]bool
 	Redirect  map[string]string
 	Havoc     map[string]bool // functions replaced by fresh unconstrained results (choice functions whose every outcome must be tolerated)
+	ForkAll   map[string]bool // functions in which every symbolic branch forks
 	ForkIn    map[string]bool // functions in which a symbolic branch whose region contains a loop or return forks instead of merging
 }
 
@@ -252,7 +253,7 @@ func NewEngine(p *Program, o Options) (*Engine, error) {
 	}
 	e := &Engine{P: p, C: smt.NewCtx(), lay: newLayout(p.IntW), opts: o,
 		glob: map[*ssa.Global]*Object{}, inited: map[*ssa.Package]bool{},
-		noMerge: map[ssa.Instruction]bool{}, qcache: map[[2]int]smt.Verdict{}, funcs: map[string]bool{}, stubs: map[string]bool{}, UFStubs: map[string]bool{}, Redirect: map[string]string{}, ForkIn: map[string]bool{}, Havoc: map[string]bool{}}
+		noMerge: map[ssa.Instruction]bool{}, qcache: map[[2]int]smt.Verdict{}, funcs: map[string]bool{}, stubs: map[string]bool{}, UFStubs: map[string]bool{}, Redirect: map[string]string{}, ForkIn: map[string]bool{}, ForkAll: map[string]bool{}, Havoc: map[string]bool{}}
 	s, err := smt.NewSolver(e.C, o.Timeout, o.SolverArgv...)
 	if err != nil {
 		return nil, err
